@@ -448,6 +448,25 @@ func (r *Ranger) evalBin(s *Sym) Itv {
 // refine applies the path facts that mention s directly.
 func (r *Ranger) refine(s *Sym, v Itv) Itv {
 	key := s.Key()
+	// facts about the same-width unsigned reinterpretation of s: uintN(s) <= hi < 2^(N-1) implies 0 <= s <= hi
+	if slo, shi, ok := typeRange(s.Typ, r.c.GOARCH); ok && slo.Sign() < 0 && r.depth < 30 {
+		for _, f := range r.facts {
+			for _, side := range []*Sym{f.X, f.Y} {
+				if side.Kind != KConv || side.Name != "convert" || side.Args[0].Key() != key {
+					continue
+				}
+				ulo, uhi, uok := typeRange(side.Typ, r.c.GOARCH)
+				if !uok || ulo.Sign() != 0 || uhi.BitLen() != shi.BitLen()+1 {
+					continue
+				}
+				u := r.Eval(side)
+				if u.hi != nil && u.hi.Cmp(shi) <= 0 {
+					v.lo = maxB(v.lo, maxB(u.lo, bi(0)))
+					v.hi = minBnil(v.hi, u.hi)
+				}
+			}
+		}
+	}
 	for _, f := range r.facts {
 		var op token.Token
 		var other *Sym
